@@ -114,19 +114,12 @@ def run_case(scn, ctx):
                 hist.apply_step(w, scn, step)
                 continue
             extra = list(step.get("extra", ()))
-            if step["op"] != "flatten" and "-i" in extra and si % 2 == 1:
+            # extra is a flat list of option/value pairs; a value may itself look like an option (--comment "-i")
+            pairs = [(extra[i], extra[i + 1]) for i in range(0, len(extra) - 1, 2)]
+            pats = [v for o, v in pairs if o == "-i"]
+            if step["op"] != "flatten" and pats and si % 2 == 1:
                 # deliver the patterns through a pattern file instead (-ii)
-                pats = [extra[i + 1] for i, a in enumerate(extra) if a == "-i"]
-                keep = []
-                skip = False
-                for a in extra:
-                    if skip:
-                        skip = False
-                        continue
-                    if a == "-i":
-                        skip = True
-                        continue
-                    keep.append(a)
+                keep = [x for o, v in pairs if o != "-i" for x in (o, v)]
                 os.makedirs(w.abs("_ii"), exist_ok=True)
                 iifile = w.abs("_ii/p%d.txt" % si)
                 with open(iifile, "w") as fh:
@@ -169,9 +162,10 @@ def run_case(scn, ctx):
                 feats.add("many_formats")
             if "-n" in step.get("flags", ()):
                 feats.add("-n")
-            if "-i" in extra or "-ii" in extra:
+            opts = extra[0::2]
+            if "-i" in opts or "-ii" in opts:
                 feats.add("ignore_opts")
-            if any(a.startswith("--") for a in extra):
+            if any(a.startswith("--") for a in opts):
                 feats.add("creator_opts")
             for f in feats:
                 ctx.event(f)
